@@ -304,6 +304,13 @@ func cloneExpr(expr Expression) Expression {
 			Alternatives: alts,
 			p:            expr.p,
 		}
+	case *LitMatcher:
+		// literals are merged in place by the optimizer (l0.Val += l1.Val), so every
+		// host of an inlined rule needs its own copy
+		return &LitMatcher{
+			posValue:   expr.posValue,
+			IgnoreCase: expr.IgnoreCase,
+		}
 	case *LabeledExpr:
 		return &LabeledExpr{
 			Expr:  cloneExpr(expr.Expr),
